@@ -87,6 +87,26 @@ def main(tier, seed):
     case("iters_missing", "math", ["--topic", "exp", "--seed", str(seed)], "big", "C17",
          lambda e: e["fn"] == "exp" and e["r"][0] == 0,
          lambda e: e.__setitem__("it", 10 ** 6))
+    # 6. slots added after the source-coverage diagnostic (DESIGN section 13): one by-reference spelling of `*`, one observer of the
+    #    Wrapping machine, one constructor load, one using_encoded byte, the From<fixed> for f64 value
+    case("spelling_ref", "arith", ["--topic", "mul", "--widths", "16", "--big", "--n", "3", "--seed", str(seed)], "big", "C01",
+         lambda e: e["op"] == "mul" and e["a"] != [0] and e["alt"][3][0] == 0 and e["o"][0][0] == 0,
+         lambda e: bump(e["alt"][3]))
+    case("wrap_observer", "wrap", ["--n", "3", "--seed", str(seed)], "int", "C18",
+         lambda e: e["k"] == "wobs" and e["op"] == "count_ones",
+         lambda e: e["r"].__setitem__(1, e["r"][1] + 1))
+    case("wrap_to_num", "wrap", ["--n", "3", "--seed", str(seed)], "int", "C18",
+         lambda e: e["k"] == "wobs" and e["op"] == "to_num" and e["r"][0] == 0,
+         lambda e: bump(e["r"]))
+    case("wrap_display_flags", "wrap", ["--n", "3", "--seed", str(seed)], "int", "C18",
+         lambda e: e["k"] == "wobs" and e["op"] == "display",
+         lambda e: e["s"][4].__setitem__(0, 32))          # "{:08.2}" padded with a blank instead of a zero
+    case("codec_using_encoded", "conv", ["--topic", "codec", "--big", "--n", "2", "--seed", str(seed)], "big", "C10",
+         lambda e: e["k"] == "codec" and e["A"][1] >= 16 and e["used"][1] != e["used"][1][::-1],
+         lambda e: e["used"].__setitem__(1, e["used"][1][::-1]))
+    case("float_from", "conv", ["--topic", "x2f", "--big", "--n", "2", "--seed", str(seed)], "big", "C05",
+         lambda e: e["k"] == "x2f" and "from" in e and e["a"] != [0],
+         lambda e: bump(e["from"]))
     os.makedirs(core.EVID, exist_ok=True)
     with open(os.path.join(core.ROOT, "selftest_result.json"), "w") as f:
         json.dump(dict(cases=cases, failures=fails), f, indent=1)
